@@ -296,7 +296,11 @@ func (fs *ReaderFS) Open(name string) (hackpadfs.File, error) {
 	if !hackpadfs.ValidPath(name) {
 		return nil, &hackpadfs.PathError{Op: "open", Path: name, Err: hackpadfs.ErrInvalid}
 	}
-	fs.ps.Wait(name)
+	if !fs.ps.Wait(name) {
+		// released because reading stopped (completed, failed or canceled), not because 'name' was unpacked.
+		// wait for the reader to wind down, only then its error is known
+		<-fs.readerCtx.Done()
+	}
 	if unarchiveErr := fs.UnarchiveErr(); unarchiveErr != nil {
 		return nil, &hackpadfs.PathError{Op: "open", Path: name, Err: unarchiveErr}
 	}
